@@ -24,40 +24,54 @@ def confirm(item, r):
     model = r.get("model") or {}
     if not model.get("scalars") and not model.get("mem"):
         return True, "no model"
+    diffs = r.get("diffs", [])
     try:
         cst, ending = liftcheck.concrete_replay(lift, model, "little", None)
     except replay.Fault as f:
-        if any(d.startswith("fault") for d in r.get("diffs", [])):
+        if any(d.startswith("fault") for d in diffs):
             return True, f"concrete IL run faults: {f}"
         return False, f"concrete IL run faulted unexpectedly: {f}"
-    diffs = r.get("diffs", [])
     if "incomplete" in diffs:
         return (ending[0] == "noedge"), f"concrete IL run ends with {ending[0]}"
-    sp = model.get("spec_post", {})
-    il_matches_model = True
-    any_diff = False
-    for n, sv in sp.items():
-        if n == "pc":
+    # IL next pc, concretely
+    il_pc = None
+    if ending[0] == "branch":
+        il_pc = ending[1]
+    else:
+        for addr, c in lift["successors"]:
+            if c is None or replay.ev(cst, c)[0] == 1:
+                il_pc = addr
+                break
+    undef = set(model.get("undef", []))
+    bad = []
+    for n, sv in model.get("spec_post", {}).items():
+        if n in undef:
             continue
-        if n.startswith("mem["):
-            a = int(n[4:-1], 16)
-            iv = cst.mem.get(a, model["mem"].get(str(a), 0))
-        else:
-            iv = cst.sc.get(n, (None, 0))[0]
-            if iv is None:
-                iv = model["scalars"].get(n, [None])[0]
+        iv = cst.sc.get(n, (None, 0))[0]
+        if iv is None:
+            iv = model["scalars"].get(n, [None])[0]
         if iv != sv:
-            any_diff = True
-    note = "concrete IL evaluation differs from the reference on the model state" if any_diff else "concrete IL evaluation"
-    if not sp:
-        any_diff = True   # pc / exclusivity differences: nothing register-like to compare here
+            bad.append(n)
+    for n, (iv, w) in cst.sc.items():
+        if n.startswith("temp") or n in undef or n in model.get("spec_post", {}) or n not in model["scalars"]:
+            continue
+        if iv != model["scalars"][n][0] and n in model.get("il_post", {}):
+            bad.append(n)          # IL changed a register the reference leaves alone
+    for a, sv in model.get("spec_mem", {}).items():
+        iv = cst.mem.get(int(a), model["mem"].get(a, 0))
+        if iv != sv:
+            bad.append(f"mem[{int(a):#x}]")
+    if "spec_pc" in model and il_pc != model["spec_pc"]:
+        bad.append("pc")
+    any_diff = bool(bad)
+    note = ("concrete IL evaluation differs from the reference in " + ",".join(bad[:6])) if any_diff else "concrete IL evaluation agrees with the reference"
     nat = native_run(item, model)
     if nat is not None:
         ok_spec, ok_il, nnote = compare_native(item, model, nat, cst)
         note += "; " + nnote
         if not ok_spec:
             return False, note + " (host CPU disagrees with my reference: spec defect)"
-        return (not ok_il) or any_diff, note
+        return ((not ok_il) or any_diff), note
     return any_diff, note + "; no native replay for this encoding"
 
 
